@@ -46,7 +46,16 @@ class Program:
 
     def generate(self):
         fct = shell.parse(model.decls_to_tokens(self.decls))
-        stg = _quiet(shell.staged_build, model.cfg_to_desc(self.cfg), fct)
+        # the program under test is the SECOND build of one Builder on one parsed model (the first uses the opposite
+        # semantics): behaviour that depends on an earlier build shows up in the compiled program
+        import dznpy.adv_shell as adv  # pylint: disable=import-outside-toplevel
+        builder = adv.Builder()
+        decoy = dict(self.cfg, mc={'on': False, 'port': '', 'claim': '', 'grant': ['x'], 'release': ''},
+                     prov={'sts': shell.ALL, 'mts': shell.NONE} if self.cfg['prov']['sts']['w'] == 'NONE' else {'sts': shell.NONE, 'mts': shell.ALL},
+                     req={'sts': shell.NONE, 'mts': shell.ALL} if self.cfg['req']['mts']['w'] in ('NONE', 'SET') else {'sts': shell.ALL, 'mts': shell.NONE},
+                     prefix=['Decoy'])
+        _quiet(shell.staged_build, model.cfg_to_desc(decoy), fct, None, builder)
+        stg = _quiet(shell.staged_build, model.cfg_to_desc(self.cfg), fct, None, builder)
         if not stg.ok:
             self.build_exc = stg.exc
             return False
